@@ -341,6 +341,9 @@ def closed_store_paired(ctx: Context, rule: str, tree: str, N: Names) -> None:
                 closes = lambda x: node_calls(x, lambda call: norm(call.func) in ("self._network_stream.aclose", "self._network_stream.close"))
                 reach = cfg.reachable([e.dst for e in sn[0].succ if e.kind != "exc"], follow=lambda e: e.kind != "exc", stop=closes) if sn else set()
                 ok = bool(sn) and cfg.exit.id not in reach
+                if not ok and sn:
+                    # the other sound order: the close of the stream dominates the store (closed first, then reported closed)
+                    ok = any(closes(x) and cfg.dominates(x, sn[0]) for x in cfg.nodes)
                 rep.ob(rule, fkey(tree, f, "closed-store-closes-stream"), ok, where(f, st),
                        "the CLOSED state is stored together with the close of the network stream" if ok else
                        f"{f.short} stores state CLOSED without closing the network stream: the pool forgets the connection (no longer counted against max_connections, never closed) "
